@@ -160,15 +160,6 @@ theorem C19_get_never_modifies (cfg : Config) (req : Request) (w : World)
 
 -- clause 5: block-wise fetch -----------------------------------------------------------------------
 
-/-- what `handle` answers to a GET of a regular file that is not revalidated -/
-theorem handle_get_file (cfg : Config) (req : Request) (w : World) (p : PPath)
-    (hget : req.method = .get) (hwk : req.path ≠ wellKnownCore)
-    (hacc : requestToLocalPath cfg.root req.path = .ok p) (hfile : w.stat = .file)
-    (hrev : (cfg.etags && w.etagMatches) = false) (hnt : trailingEmpty req.path = false)
-    (b : Option (Nat × Nat)) :
-    (handle cfg { req with block2 := b } w).resp = sliceBlock w.content b := by
-  simp [handle, hget, renderGet, hwk, hacc, renderGetAt, hfile, hrev, hnt]
-
 /-- **C19 (blocks concatenate to the file).** For every file content and every size exponent
 (0..6, and 7 which the code treats as 1024), a client that asks for block 0, 1, 2, … of an
 accepted file path until the answer carries `more = false` obtains, concatenating the payloads,
@@ -256,6 +247,17 @@ example : (handle { root := exampleRoot, write := true, etags := true }
        .rename { root := 1, parts := [srv, files, d, tmpab12] }
                { root := 1, parts := [srv, files, d, new] },
        .stat { root := 1, parts := [srv, files, d, new] }] := by decide
+
+/-- a hostile DELETE with write enabled: refused, nothing touched -/
+example : (handle { root := exampleRoot, write := true, etags := true }
+    { method := .delete, path := [[], etc, hostname], ifNoneMatch := false, ifMatch := false,
+      ifMatchEmpty := false, block2 := none } exampleWorld).ops = [] := by decide
+
+/-- the hypotheses of `C19_blocks_concat` are met by a concrete request and world -/
+example : fetchLoop (fun k => (handle { root := exampleRoot, write := false, etags := true }
+    { method := .get, path := [d, xtxt], ifNoneMatch := false, ifMatch := false,
+      ifMatchEmpty := false, block2 := some (k, 0) } exampleWorld).resp) 41 0
+    = some (List.range 40) := by decide
 
 /-- a 40-byte file fetched with szx 0: three blocks 16 + 16 + 8, more = 1, 1, 0 -/
 example : (List.range 3).map (fun k => ((sliceBlock (List.range 40) (some (k, 0))).payload.length,
